@@ -154,6 +154,9 @@ func ParseMember(b []byte) (*Member, error) {
 	if len(b) < m.Len {
 		return nil, ErrTruncated
 	}
+	if m.Len < 12+xlen+8 {
+		return nil, fmt.Errorf("BSIZE+1 = %d is smaller than the header and trailer", m.Len)
+	}
 	p := 12 + xlen
 	cstr := func() (string, error) {
 		i := bytes.IndexByte(b[p:m.Len], 0)
